@@ -44,7 +44,8 @@ PAIR_USES = [[a, b] for a in ('brace', 'tok', 'opt', 'omit', 'nested') for b in 
 ROUTES = ['doc', 'defs', 'ltinput']
 # option sets under which the three routes are compared: default; Latin-1 input encoding with a non-ASCII character in the
 # definitions; --nosp together with the preamble line the README prescribes (\newcommand{\LTinput}[1]{} has to be ignored)
-VARIANTS = ['std', 'latin1', 'nosp', 'pre']
+VARIANTS = ['std', 'latin1', 'nosp', 'pre', 'extr']
+# 'extr': the three routes under --extr footnote (only the footnote text is output; only the route comparison is judged)
 # 'pre': text with a footnote stands in front of the definitions (of the \LTinput line); only the route comparison is judged
 PRE = 'Wpaq\\footnote{Wpbq Wpcq} Wpdq\n'
 
@@ -362,6 +363,8 @@ class C09:
             extra = {'nosp': True}
             lt_pre = '\\newcommand{\\LTinput}[1]{}\n'
         pre = PRE if variant == 'pre' else ''
+        if variant == 'extr':
+            extra = {'extr': 'footnote'}
         tag = '%s:%s:%s' % (BODIES[bi][0], definer, '+'.join(USES[ui] if ui >= 0 else PAIR_USES[-ui - 1]))
         with open('ymcdefs.tex', 'w', encoding=enc) as f:
             f.write(dtxt)
@@ -384,7 +387,7 @@ class C09:
             if o.stderr:
                 viol.append({'clause': 'no diagnostic for well-formed definitions', 'sig': 'C09:stderr:' + tag, 'detail': dict(det, stderr=o.stderr[:200])})
                 continue
-            if pre:
+            if pre or variant == 'extr':
                 continue
             r = cat.Rendered()
             r.flows = flows
@@ -412,6 +415,8 @@ class C09:
         if len(results) == 3:
             base = results['defs']
             for route in ('doc', 'ltinput'):
+                if variant == 'extr' and route == 'ltinput':
+                    continue        # with an extraction list every declared macro is inert, \LTinput too (documented in DESIGN 9.2)
                 if results[route][0] != base[0]:
                     viol.append({'clause': 'same text whichever way the definitions are supplied; definition lines leave no text',
                                  'sig': 'C09:route-text:%s:%s' % (route, layout),
